@@ -99,6 +99,13 @@ def check_faults(nodes, src, case, res):
         t = str(out1[1])
         if not O.closers_only(s, t):
             raise H.Violation('C07:not-closers-only', fcase, 'tolerant output %r for input %r' % (t[:300], s[:300]))
+        if (a + len(kind)) % 3 == 0:
+            # the tolerance setting applies whatever form the source is passed in (list of lines, as from a file)
+            out1b = T.outcome(s.splitlines(True), 1)
+            if out1b[0] != 'ok' or str(out1b[1]) != t:
+                raise H.Violation('C07:lost-closer-not-tolerated-for-line-list:' + kind, dict(fcase, form='lines'),
+                                  'as a list of lines tolerant parsing gives %s, as one string it succeeds' % (
+                                      out1b[1] if out1b[0] != 'ok' else repr(str(out1b[1])[:200])))
         labels.add('fault:' + kind)
         if a + (b - a) < len(src):
             labels.add('nt:closer-not-last')
